@@ -455,6 +455,82 @@ def r115(ctx, R):
              "its own position in the row", 'position %s, uses %s' % (
                  pos, uses), func=f)
     R.count('R11.5', n, 7)
+    # sibling queries of one view restrict the same rows
+    for q in (OBJ + 'usage:_get_all_by_project_user',
+              OBJ + 'usage:_get_by_consumer_type'):
+        _siblings(ctx, R, prog.func(q))
+
+
+def _query_states(ctx, f):
+    """{var: (defining stmt, {(conditions, atom)})} for query variables of
+    f, in source order; a variable derived from another inherits what that
+    one carried at the point of derivation."""
+    from psa import sqlshape
+    sh = sqlshape.Shape(ctx, f)
+    state = {}
+    first = {}
+    assigns = sorted([a for a in own_nodes(f.node)
+                      if isinstance(a, ast.Assign) and len(a.targets) == 1
+                      and isinstance(a.targets[0], ast.Name)],
+                     key=lambda a: (a.lineno, a.col_offset))
+    for a in assigns:
+        v = a.value
+        root = v
+        while isinstance(root, (ast.Call, ast.Attribute)):
+            root = root.func if isinstance(root, ast.Call) else root.value
+        base = root.id if isinstance(root, ast.Name) and root.id in state \
+            else None
+        is_query = base is not None or '.query(' in src(v) or \
+            'sa.select(' in src(v)
+        if not is_query:
+            continue
+        conds = tuple(sorted(
+            ('' if br == 'body' else 'not ') + C.canon(f, i.test)
+            for i, br in C.guarding_ifs(a, f.node)))
+        atoms = sh.atoms_of(list(ast.walk(v)))
+        cur = set(state.get(base, (None, set()))[1]) if base else set()
+        cur |= {(conds, x) for x in atoms}
+        nm = a.targets[0].id
+        state[nm] = (a, cur)
+        first.setdefault(nm, a)
+    return state, first
+
+
+def _siblings(ctx, R, f):
+    state, first = _query_states(ctx, f)
+    names = sorted(state)
+    if len(names) < 2:
+        R.ob('R11.5', '%s:sibling-queries' % f.qbase, len(names) >= 1,
+             'the view is computed by the queries found', names, func=f,
+             nontrivial=False)
+        return
+    main = names[0]
+    for nm in names:
+        if len(state[nm][1]) > len(state[main][1]) or 'count' not in nm:
+            main = nm if 'count' not in nm else main
+
+    def rows(nm, drop):
+        out = set()
+        for conds, a in state[nm][1]:
+            if a.startswith(('group_by ', 'sum(', 'count(', 'distinct',
+                             'limit')):
+                continue
+            out.add((tuple(c for c in conds if c not in drop), a))
+        return out
+    for nm in names:
+        if nm == main:
+            continue
+        enclosing = set(
+            ('' if br == 'body' else 'not ') + C.canon(f, i.test)
+            for i, br in C.guarding_ifs(first[nm], f.node))
+        a, b = rows(main, enclosing), rows(nm, enclosing)
+        R.ob('R11.5', '%s:%s-restricts-like-%s' % (f.qbase, nm, main),
+             a == b,
+             'the sibling queries of one view (totals and consumer count) '
+             'join and filter the same rows under the same conditions',
+             'only in %s: %s; only in %s: %s' % (
+                 main, sorted(x[1] for x in a - b), nm,
+                 sorted(x[1] for x in b - a)), func=f, node=first[nm])
 
 
 # ---------------------------------------------------------------- R11.6
@@ -572,6 +648,74 @@ def r116(ctx, R):
     R.count('R11.6', n, 36)
 
 
+def r117(ctx, R):
+    """Defaults are applied per record: every dict that a request record
+    is merged into starts, in that same loop iteration, as a fresh copy of
+    INVENTORY_DEFAULTS; the defaults table itself is never written."""
+    prog = ctx.prog
+    DEF = 'placement.handlers.inventory.INVENTORY_DEFAULTS'
+    n = 0
+
+    def is_defaults(f, e):
+        return prog.dotted(f.module, e, f) == DEF
+
+    def fresh_copy(f, v):
+        return isinstance(v, ast.Call) and src(v.func) in (
+            'copy.copy', 'copy.deepcopy', 'dict') and len(
+                v.args) == 1 and is_defaults(f, v.args[0])
+    for f in prog.funcs:
+        if not f.module.name.startswith('placement.handlers.'):
+            continue
+        # names bound to a copy of the defaults
+        copies = [a for a in own_nodes(f.node) if isinstance(a, ast.Assign)
+                  and isinstance(a.targets[0], ast.Name)
+                  and fresh_copy(f, a.value)]
+        for a in copies:
+            nm = a.targets[0].id
+            n += 1
+            ups = [c for c in own_nodes(f.node) if isinstance(c, ast.Call)
+                   and isinstance(c.func, ast.Attribute)
+                   and c.func.attr == 'update'
+                   and src(c.func.value) == nm]
+            bad = []
+            for u in ups:
+                lp = getattr(C.stmt_of(u), '_parent', None)
+                while lp is not None and not isinstance(
+                        lp, (ast.For, ast.While, ast.FunctionDef)):
+                    lp = getattr(lp, '_parent', None)
+                if isinstance(lp, (ast.For, ast.While)):
+                    # the copy must be made inside that same loop, before
+                    # the merge
+                    inside = any(a is x for x in own_nodes_of(lp))
+                    if not inside or not cfgmod.cfg_of(f).dominates(
+                            a, C.stmt_of(u)):
+                        bad.append(u)
+            R.ob('R11.7', '%s:%s-fresh-per-record' % (f.qbase, nm), not bad,
+                 'a record is merged into a copy of the defaults made for '
+                 'that record (not into one copy shared by all records)',
+                 ['line %d' % b.lineno for b in bad] or 'fresh', func=f,
+                 node=a)
+        # the table itself is not written
+        for x in own_nodes(f.node):
+            tgt = None
+            if isinstance(x, ast.Call) and isinstance(
+                    x.func, ast.Attribute) and x.func.attr in (
+                        'update', 'pop', 'setdefault', 'clear') and \
+                    is_defaults(f, x.func.value):
+                tgt = x
+            if isinstance(x, ast.Subscript) and isinstance(
+                    x.ctx, (ast.Store, ast.Del)) and is_defaults(f, x.value):
+                tgt = x
+            if tgt is not None:
+                R.ob('R11.7', '%s:defaults-table-written' % f.qbase, False,
+                     'INVENTORY_DEFAULTS is never modified', src(tgt)[:60],
+                     func=f, node=tgt)
+    R.count('R11.7', n, 3)
+    # the reshaper stores the requested inventory of every listed provider
+    from psa.rules import c01
+    C.reuse_obligations(ctx, R, c01.r14, 'R11.7')
+
+
 def run(ctx, R):
     r111(ctx, R)
     r112(ctx, R)
@@ -579,3 +723,4 @@ def run(ctx, R):
     r114(ctx, R)
     r115(ctx, R)
     r116(ctx, R)
+    r117(ctx, R)
